@@ -680,6 +680,10 @@ inline void hub(TC& c, Method m, uint8_t sid, uint8_t inj, uint64_t* mem, const 
 	UserScope us(w);
 	// data kept in the state object itself: a running digest of the callbacks it received (C17: copies carry it along)
 	if (mem && !w.probe) *mem = vh::mix(*mem, (static_cast<uint64_t>(m) << 8) | inj);
+	if (w.inSnapshotCopy) {
+		w.V("C17", "copy-construction-ran-callbacks|taken-inside-callback", fmt("copy construction (from inside a callback) delivered %s of %u", mname(m), sid));
+		return;
+	}
 	if (w.probe) {
 		// silent query used by the observer to read the outstanding request
 		if (m != Method::QUERY) w.V("C05", "non-query-callback-during-query", fmt("%s of %u delivered by query()", mname(m), sid));
@@ -701,7 +705,7 @@ inline void hub(TC& c, Method m, uint8_t sid, uint8_t inj, uint64_t* mem, const 
 	if (w.stopCase) return;
 	userCode<F>(c, *in, m, sid);
 	// (the draw is made for every chooser-driven instance so that a copy run in lock-step consumes the same decisions)
-	if (in->policy == POL_CHOOSER && w.ch.mode != Chooser::ENUM && in->st.op != OP_CTOR && in->st.op != OP_DTOR && w.ch.chance(1, 89)
+	if (in->policy == POL_CHOOSER && w.ch.mode != Chooser::ENUM && in->st.op != OP_DTOR && w.ch.chance(1, 89)
 		&& in->slot == 0 && w.snapshotHook && !w.snapPending)
 		w.snapshotHook(*in, m);
 }
